@@ -47,9 +47,9 @@ def do_stream(n, payload, typ, tail, cut):
     ok = term and sent == len(msg) and nxt == (tail[0] if tail else None)
     v = d.tnet.type.input
     if typ == 44:
-        return ok and [x for x in v] == payload and type(v) is bytes or ok and [x for x in v] == payload
+        return ok and isinstance(v, (bytes, bytearray)) and not isinstance(v, str) and [x for x in v] == payload
     if typ == 36:
-        return ok and [ord(c) for c in v] == payload
+        return ok and isinstance(v, str) and [ord(c) for c in v] == payload
     if typ == 35:
         exp = 0
         for b in payload:
